@@ -10,7 +10,8 @@ fk in FAULTS.  `to_ast` turns a shape into refint AST statements framed by probe
 """
 import itertools
 
-CONDS = ["true", "false", "K==1", "K%2==0", "K<2", "p==1", "!(K==1)", "K==1&&p<2", "K==1||p==2", "K>=1", "K!=1", "(\"s\"+K)==\"s1\"", "bf(K)"]
+CONDS = ["true", "false", "K==1", "K%2==0", "K<2", "p==1", "!(K==1)", "K==1&&p<2", "K==1||p==2", "K>=1", "K!=1", "(\"s\"+K)==\"s1\"", "bf(K)",
+         "K==1&&p<2||K==2", "K==2||p<2&&K==1"]     # the last two: grouping decided by precedence in the minimal-parentheses rendering
 D_COND = 2
 WHILE_N = [0, 1, 2, 3]
 D_N = 2
@@ -172,7 +173,9 @@ def cond_ast(c, K):
             ("bin", "||", ("bin", "==", k, ("int", 1)), ("bin", "==", p, ("int", 2))),
             ("bin", ">=", k, ("int", 1)), ("bin", "!=", k, ("int", 1)),
             ("bin", "==", ("bin", "+", ("str", "s"), k), ("str", "s1")),
-            ("call", var("bf"), [k])][c]
+            ("call", var("bf"), [k]),
+            ("bin", "||", ("bin", "&&", ("bin", "==", k, ("int", 1)), ("bin", "<", p, ("int", 2))), ("bin", "==", k, ("int", 2))),
+            ("bin", "||", ("bin", "==", k, ("int", 2)), ("bin", "&&", ("bin", "<", p, ("int", 2)), ("bin", "==", k, ("int", 1))))][c]
 
 
 def probe(ctx, counters):
@@ -293,6 +296,7 @@ COLL = ["c0", "c1", "c2", "c3", "c4", "c5"]
 def function_program(shape, variant="fn"):
     """-> AST of a whole program embedding the shape.
     variant: 'fn' (called with p = 0, 1, 2), 'module' (module level, p = 1), 'rec' (one level of recursion)."""
+    variant = variant.split("~")[0]      # "fn~min": same program, rendered with minimal parentheses by the caller
     ctx = Ctx()
     pre = [("assign", "box", ("new", "Bx", [("int", 5)]), None, ()),
            ("assign", "lst", ("list", [("int", 10), ("int", 20)]), "[int...]", ()),
